@@ -309,7 +309,7 @@ def transition_table(m: Machine):
                 for rp in (1, 2):
                     for pe in (True, False):
                         for pr in (True, False):
-                            for lr in (Fraction(1, 10), Fraction(1, 10 ** 9)):
+                            for lr in (Fraction(1, 10), Fraction(1, 10 ** 9), Fraction(2, 10 ** 6)):  # change >, <, == epsilon
                                 for thr in (Fraction(1, 10), 0):
                                     for ne, epoch in ((None, 3), (0, 3), (5, 3), (3, 3), (2, 3)):
                                         row0 = dict(es_resume_cd=er, es_patience_cd=ep, rlr_resume_cd=rr, rlr_patience_cd=rp, lr=lr)
